@@ -117,8 +117,11 @@ def oracle(case, line, exact):
         if n == 0: return None if line == "null" else "allocate(0) must return nullptr"
         if n > mx: return None if line == "length_error" else "n > max_size() must throw length_error"
         if exact:
-            want = ("bad_alloc" if ans == "none" else "ptr=" + ans) + " req=%d,%d" % (n * s, a)
-            return None if line == want else "n <= max_size(): the back end must be asked for n*sizeof(T)=%d bytes at %d" % (n * s, a)
+            res = "bad_alloc" if ans == "none" else "ptr=" + ans
+            if line == res + " req=%d,%d" % (n * s, a): return None
+            if line == res + " req=%d,0" % (n * s) and a <= 8: return None    # plain scalable_malloc: guarantees 8
+            return ("n <= max_size(): the back end must be asked for n*sizeof(T)=%d bytes aligned to %d (request printed as bytes,align; "
+                    "align 0 = an entry point that guarantees no more than 8)" % (n * s, a))
         if line == "ptr=ok" or (line == "bad_alloc" and n * s > (1 << 24)): return None
         return "n <= max_size(): expected an aligned pointer (or bad_alloc for a huge request)"
     if k == "I":
@@ -209,7 +212,9 @@ def abstract(case, line):
         for tok, o in zip(ops, outs):
             f = tok.split(":")
             if f[0] == "m" and int(f[1]) == 0: res.append("p?")       # size 0: null or a pointer
-            elif o.startswith("p="): res.append("p=al" if int(o[2:]) % int(f[2]) == 0 else "p=MIS")
+            elif o.startswith("p="):
+                mm_ = re.match(r"p=(\d+)(.*)$", o)
+                res.append(("p=al" if mm_ and int(f[2]) and int(mm_.group(1)) % int(f[2]) == 0 else "p=MIS") + (mm_.group(2) if mm_ else ""))
             else: res.append(o)
         m = re.match(r"live=\[(.*)\]$", outs[-1]) if outs else None
         if m:
@@ -284,6 +289,30 @@ def gen_heap(r, npasses):
     return cases
 
 
+def gen_small_live(r, nlive, aligns=(1, 2, 4, 8, 16, 32, 64), sizes=range(0, 17)):
+    """allocators serve small requests from size-class bins whose slots are only as aligned as the slot size:
+    a pointer is aligned 'by luck' unless many blocks of the cell are alive at once.  One history per
+    (size, align) cell with nlive blocks alive simultaneously, then freed in seeded order (every block's
+    pointer % align and full-extent pattern are checked by the harness); plus, per alignment, one history
+    mixing all the small sizes."""
+    cases = []
+    for a in aligns:
+        for s in sizes:
+            ops = ["m:%d:%d" % (s, a)] * nlive
+            order = list(range(nlive)); r.shuffle(order)
+            ops += ["f:%d" % j for j in order[:r.randint(nlive // 2, nlive)]]
+            cases.append("H -1 " + " ".join(ops))
+        mix = [(s, a) for s in sizes for _ in range(max(2, nlive // 8))]
+        r.shuffle(mix)
+        ops, livej = [], []
+        for j, (s, a2) in enumerate(mix):
+            ops.append("m:%d:%d" % (s, a2)); livej.append(j)
+            if len(livej) > nlive and r.random() < 0.5:
+                ops.append("f:%d" % livej.pop(r.randrange(len(livej))))
+        cases.append("H -1 " + " ".join(ops))
+    return cases
+
+
 HUGE = [1 << 62, 1 << 63, M64 - 1, (1 << 63) - 1]
 
 
@@ -321,9 +350,15 @@ def run(ctx):
         dict(sources=["harness.cpp"], out="h_mm", repo_sources=REPO_SRC, sanitize="asan"),
         dict(sources=["harness.cpp"], out="h_tbb", repo_sources=REPO_SRC, sanitize="ubsan", flags=tbbflags, libs=["-ltbbmalloc"]),
     ])
-    if not model or not all(exes):
+    if not model:
         return
     spy, mm, tbb = exes
+    if not all(exes):
+        # a build that fails is recorded as broken by ctx.cxx; the cases still run on the builds that exist, so
+        # that a concrete failing input is searched for before falling back to no-failing-input-found
+        ctx.log("builds missing: %s - continuing with the others" % ", ".join(n for n, e in zip(("spy", "mm", "tbb"), exes) if not e))
+        if not any(exes):
+            return
     r = ctx.rng("cases")
     corpus = []
     cp = os.path.join(ctx.verif, "corpus", "C14", "cases.txt")
@@ -331,6 +366,8 @@ def run(ctx):
         corpus = [l.strip() for l in open(cp) if l.strip() and not l.startswith("#")]
     arith = gen_arith(r, ctx)
     heap = gen_heap(r, ctx.pick(6, 40))
+    small_live = gen_small_live(ctx.rng("small-live"), ctx.pick(64, 256))
+    heap += small_live
     # vector histories that the model follows (small, so that the association-list memory stays cheap)
     vec_small, vec_fail, vec_big = [], [], []
     for i in range(ctx.pick(600, 4000)):
@@ -350,12 +387,15 @@ def run(ctx):
         ctx.broken.append("model driver failed on case %r" % (modelled[mcr[0][0]] if mcr else "?"))
         return
     runs = []     # (label, exe, exact, cases, lines, expected-or-None)
-    lines, cr = run_cases(ctx, spy, modelled)
-    ctx.log("spy done")
-    runs.append(("spy back end", spy, True, modelled, lines, mlines, cr))
+    if spy:
+        lines, cr = run_cases(ctx, spy, modelled)
+        ctx.log("spy done")
+        runs.append(("spy back end", spy, True, modelled, lines, mlines, cr))
     realcases = [c for c in modelled if real_ok(c) and c[0] != "S"]
     rexp = [abstract(c, mlines[i]) for i, c in enumerate(modelled) if real_ok(c) and c[0] != "S"]
     for label, exe in (("_mm_malloc back end (ASan)", mm), ("TBB scalable allocator back end", tbb)):
+        if not exe:
+            continue
         lines, cr = run_cases(ctx, exe, realcases + vec_big, env=ASAN_ENV)
         ctx.log(label + " done")
         runs.append((label, exe, False, realcases + vec_big, lines, rexp + [None] * len(vec_big), cr))
@@ -385,13 +425,14 @@ def run(ctx):
         ctx.nontriv(c)
     ctx.cov["op_histogram"] = hist
     ctx.cov["case_kinds"] = kinds
-    ctx.cov["case_mix"] = {"corpus": len(corpus), "arith_grid": len(arith), "malloc_free_histories": len(heap),
+    ctx.cov["case_mix"] = {"corpus": len(corpus), "arith_grid": len(arith), "malloc_free_histories": len(heap), "of_which_many_small_live_blocks_per_size_align_cell": len(small_live),
                            "vector_histories_modelled": len(vec_small), "vector_histories_with_injected_bad_alloc": len(vec_fail),
                            "vector_histories_real_back_ends_only": len(vec_big)}
     ctx.rule = ("M/G/I/P/S: boundary grid for max_size, the length_error guard (n around max_size, around 2^64/sizeof(T) and its multiples, "
                 "2^63, 2^64-1; 13 element sizes x 4 alignments; back-end answer scripted), isAligned, ALIGN_PTR and the assert; "
                 "H: the grid sizes {0,1,a-1,a,a+1,4095,4096,4097,2^20+3} x alignments 1..4096 in seeded order interleaved with frees, full-extent "
-                "patterns verified before every free; V: random push_back/resize/reserve/shrink_to_fit/assign/clear/swap histories on two "
+                "patterns verified before every free, plus for every size 0..16 x alignment 1..64 a history with 64 (thorough: 256) blocks of that cell "
+                "alive at once, pointer % align checked for each; V: random push_back/resize/reserve/shrink_to_fit/assign/clear/swap histories on two "
                 "AlignedVectors of element size 1,4,12,64,72 with a std::vector twin, some with one injected back-end failure, some with "
                 "requests around vector::max_size(); every case on 3 builds (spy / _mm_malloc+ASan / TBB).  non-trivial = G,I,P: operand > 1; "
                 "H: contains a free; V: the data pointer took >= 3 distinct values (or the long real-only histories)")
@@ -424,7 +465,10 @@ def run(ctx):
                 continue
             verdict = oracle(c, il, exact)
             exp = expect[i]
-            got = il if exact else abstract(c, il)
+            try:
+                got = il if exact else abstract(c, il)
+            except Exception as ex:          # a line the abstraction cannot parse never equals the model's
+                got = "<unparsable: %s> %s" % (ex, il)
             if verdict is None and (exp is None or got == exp):
                 continue
             nmis += 1
